@@ -12,6 +12,7 @@ use crate::world::*;
 pub struct C03 {
     guarded: bool,
     exmember_fed: bool,
+    outsider_fed: bool,
     evicted_nodes: BTreeSet<(usize, usize)>,
 }
 
@@ -44,9 +45,36 @@ impl Oracle for C03 {
                 self.evicted_nodes.insert((node, g));
             }
         }
+        // a client that was never invited to a group (and did not create it) never holds it
+        for g in 0..w.groups.len() {
+            if w.gview(node, g).is_some() && w.groups[g].creator != node && !w.welcomes.iter().any(|x| x.g == g && x.recipient == node) {
+                viols.push(("group-held-by-never-member", format!("g{g} n{node}: holds the group although no invitation was ever addressed to it")));
+            }
+        }
+        if let Op::ProcessWelcome { w: wr } = &rec.step.op {
+            if let Some(pw) = w.w_index.get(wr).map(|i| w.welcomes[*i].clone()) {
+                // one MLS Welcome serves every member added by the same commit: a co-invitee can
+                // open the copy addressed to another co-invitee, legitimately
+                let co_invitee = w.welcomes.iter().any(|x| x.origin.0 == pw.origin.0 && x.g == pw.g && x.recipient == node);
+                if pw.recipient != node && !co_invitee {
+                    self.outsider_fed = true;
+                    w.probe("foreign_invitation_fed_to_outsider");
+                    if rec.class == "ok" {
+                        viols.push(("foreign-invitation-accepted", format!("g{} n{node}: process_welcome succeeded on an invitation addressed to n{}", pw.g, pw.recipient)));
+                    }
+                }
+            }
+        }
         // an app message returned by process_message to a client that is not a member of its epoch
         if let Op::Deliver { ev } = &rec.step.op {
             if let Some(pe) = w.ev(*ev).cloned() {
+                if w.gview(node, pe.g).is_none() {
+                    self.outsider_fed = true;
+                    w.probe("event_fed_to_never_member");
+                    if !matches!(rec.class.as_str(), "err" | "unprocessable" | "skipped") && !crate::world::is_refusal(&rec.class) {
+                        viols.push(("never-member-processed-an-event", format!("g{} n{node}: answered {} to an event of a group it never held", pe.g, rec.outcome.chars().take(80).collect::<String>())));
+                    }
+                }
                 if self.evicted_nodes.contains(&(node, pe.g)) && pe.kind == EvKind::App {
                     self.exmember_fed = true;
                     w.probe("message_fed_to_ex_member");
@@ -120,6 +148,7 @@ fn churn(g: &mut Gen) {
     g.cfg.weights.rotate = g.cfg.weights.rotate.max(1);
     // evicted clients keep trying to send
     g.ex_members_send = true;
+    g.feed_outsiders = true;
 }
 
 pub fn spec() -> CheckSpec {
@@ -127,12 +156,12 @@ pub fn spec() -> CheckSpec {
     CheckSpec {
         id: "C03",
         level: "exploration",
-        rule: "membership-churn world runs (adds, removals, leaves with admin auto-commit, self-updates, id rotations, re-invites, two groups sharing members), every message carrying a unique canary; ex-members keep their storage (incl. past exporter secrets) and keep being handed every event of the group in seeded orders, repeatedly; oracle after every call: a client stores / is returned a message only if its identity is in the member set (ground-truth ledger) of the state the message was sent in; evicted => record inactive and create_message fails; final byte scan of unencrypted SQLite files for foreign canaries; non-trivial = a removal, a later message, and that message fed to the ex-member; distinct = delivery signature",
+        rule: "membership-churn world runs (adds, removals, leaves with admin auto-commit, self-updates, id rotations, re-invites, two groups sharing members), every message carrying a unique canary; ex-members keep their storage (incl. past exporter secrets) and keep being handed every event of the group in seeded orders, repeatedly; clients that never held the group are handed its events and invitations addressed to others (they must refuse, hold nothing, store nothing); oracle after every call: a client stores / is returned a message only if its identity is in the member set (ground-truth ledger) of the state the message was sent in; evicted => record inactive and create_message fails; final byte scan of unencrypted SQLite files for foreign canaries; non-trivial = a removal, a later message, and that message fed to the ex-member; distinct = delivery signature",
         variants: vec![
             Variant { name: "mem", profile: Profile { backend: BackendMix::Memory, ..base.clone() }, runs_quick: 300, runs_thorough: 15000, oracle: mk, guarded: false, configure_gen: Some(churn), post: None, custom: None },
             Variant { name: "mixed", profile: Profile { backend: BackendMix::Mixed, allow_restart: true, ..base.clone() }, runs_quick: 100, runs_thorough: 5000, oracle: mk, guarded: false, configure_gen: Some(churn), post: None, custom: None },
         ],
-        assumptions: vec!["observers that never held the group answer 'group not found' to every wrapper (no key material): only ex-members, late joiners, re-invited members and members of other groups are simulated as readers", "member sets per state come from the first honest client that exhibited the state"],
+        assumptions: vec!["member sets per state come from the first honest client that exhibited the state"],
         real: super::REAL.to_vec(),
         stubs: super::STUBS.to_vec(),
     }
